@@ -259,3 +259,6 @@ def run(ctx):
     import rules.C05 as c05
     ctx.shared(c04.r04_4, 'R04.4', 'R03.9')
     ctx.shared(c05.r05_6, 'R05.6', 'R03.10')
+    # R03.11 = R04.6: the disparity the level-wise assembly relies on (blocks only `disparity` levels down) is established by
+    # the marking closure of refine()
+    ctx.shared(c04.r04_6, 'R04.6', 'R03.11')
